@@ -7,10 +7,12 @@ import (
 	"crypto/tls"
 	"encoding/base64"
 	"errors"
+	"io"
 	"net"
 	"net/rpc"
 	"os"
 	"os/exec"
+	"strings"
 	"time"
 
 	"google.golang.org/grpc/health/grpc_health_v1"
@@ -107,7 +109,9 @@ func wSetup(o wOpts) *wWorld {
 		cfg.RunnerFunc = func(l hclog.Logger, cmd *exec.Cmd, tmp string) (runner.Runner, error) {
 			for _, kv := range cmd.Env {
 				k, v, _ := wCut(kv)
-				vSetenvProc(w.p.id, k, v)
+				if vIsConcrete(k) {
+					vSetenvProc(w.p.id, k, v)
+				}
 			}
 			return &wRunner{p: w.p, xlate: o.xlate}, nil
 		}
@@ -827,5 +831,179 @@ func harnessC18world() {
 	vAssert(len(wFiles) == 0, "C18: no socket file or temporary directory created by go-plugin is left after a graceful shutdown")
 	vAssert(vLiveGoroutines() == 0, "C18: no goroutine started by go-plugin for the client remains in the host a few seconds after Kill")
 	vCover("clean")
+	vDone()
+}
+
+// ---------------------------------------------------------------------------------------------- C17: launch environment
+func wEffective(env []string, key string) (string, bool) {
+	for i := len(env) - 1; i >= 0; i-- {
+		k, v, ok := strings.Cut(env[i], "=")
+		if ok && k == key {
+			return v, true
+		}
+	}
+	return "", false
+}
+
+func harnessC17world() {
+	hk, hv := vNondetStr("hostkey", "="), vNondetStr("hostval", "")
+	wHostEnv = []string{hk + "=" + hv} // the host's own environment: one arbitrary variable
+	var o wOpts
+	o.allowed = 1
+	o.grpc = vChoice(2) == 1
+	o.cmd = vChoice(2) == 1
+	if vChoice(2) == 1 {
+		o.tls = 1
+	}
+	if o.grpc {
+		o.mux = vChoice(2) == 1
+	}
+	group := ""
+	if vChoice(2) == 1 {
+		group = "plugins"
+	}
+	skip := vChoice(2) == 1
+	w := wSetup(o)
+	cfg := w.c.config
+	cfg.SkipHostEnv = skip
+	cfg.MinPort, cfg.MaxPort = 10000, 10500
+	if group != "" {
+		cfg.UnixSocketConfig = &UnixSocketConfig{Group: group}
+	}
+	var got []string
+	var gotStdin io.Reader
+	var gotTmp string
+	if !o.cmd {
+		inner := cfg.RunnerFunc
+		cfg.RunnerFunc = func(l hclog.Logger, cmd *exec.Cmd, tmp string) (runner.Runner, error) {
+			got, gotStdin, gotTmp = cmd.Env, cmd.Stdin, tmp
+			return inner(l, cmd, tmp)
+		}
+	}
+	_, err := w.c.Start()
+	if o.cmd {
+		got, gotStdin = wLastCmdEnv, wLastCmdStdin
+	}
+	vAssert(got != nil, "C17: the launched command received an environment")
+	v, ok := wEffective(got, "COOKIE")
+	vAssert(ok && v == "V", "C17: the magic cookie is passed")
+	v, ok = wEffective(got, "PLUGIN_MIN_PORT")
+	vAssert(ok && v == "10000", "C17: the port range is passed (min)")
+	v, ok = wEffective(got, "PLUGIN_MAX_PORT")
+	vAssert(ok && v == "10500", "C17: the port range is passed (max)")
+	v, ok = wEffective(got, "PLUGIN_PROTOCOL_VERSIONS")
+	vAssert(ok && v == "1", "C17: exactly the offered protocol versions are passed")
+	_, hasCert := wEffective(got, "PLUGIN_CLIENT_CERT")
+	vAssert(hasCert == (o.tls == 1), "C17: a client certificate is passed exactly when AutoMTLS is on")
+	_, hasMux := wEffective(got, "PLUGIN_MULTIPLEX_GRPC")
+	vAssert(hasMux == o.mux, "C17: the multiplexing flag is passed exactly when multiplexing is requested")
+	g, hasGroup := wEffective(got, "PLUGIN_UNIX_SOCKET_GROUP")
+	if group != "" {
+		vCover("socket-group")
+		vAssert(hasGroup && g == group, "C17: the socket group is passed when configured")
+	} else {
+		vAssert(!hasGroup, "C17: no socket group is passed unless configured")
+	}
+	d, hasDir := wEffective(got, "PLUGIN_UNIX_SOCKET_DIR")
+	if o.cmd {
+		vCover("cmd-launch")
+		vAssert(!hasDir, "C17: no socket directory is passed for a command launch")
+	} else {
+		vCover("runner-launch")
+		vAssert(hasDir && d == gotTmp && d != "", "C17: the socket directory created for a custom runner is passed")
+	}
+	vAssert(gotStdin == io.Reader(os.Stdin), "C17: the launched command gets the host's stdin")
+	if skip {
+		vCover("skip-host-env")
+		_, leaked := wEffective(got, hk)
+		vAssert(!leaked || hk == "COOKIE" || hk == "PLUGIN_MIN_PORT" || hk == "PLUGIN_MAX_PORT" || hk == "PLUGIN_PROTOCOL_VERSIONS" || hk == "PLUGIN_CLIENT_CERT" || hk == "PLUGIN_MULTIPLEX_GRPC" || hk == "PLUGIN_UNIX_SOCKET_DIR" || hk == "PLUGIN_UNIX_SOCKET_GROUP",
+			"C17: with SkipHostEnv no host variable is passed")
+	}
+	vAssert(err == nil, "C17: the plugin launched with this environment starts")
+	w.c.Kill()
+	vDone()
+}
+
+// ---------------------------------------------------------------------------------------------- C13: check before launch
+// hash.Hash whose digest is an arbitrary byte string (an uninterpreted function of the file's content)
+type wHash struct{ sum []byte }
+
+func (h *wHash) Write(p []byte) (int, error) { return len(p), nil }
+func (h *wHash) Sum(b []byte) []byte          { return h.sum }
+func (h *wHash) Reset()                       {}
+func (h *wHash) Size() int                    { return len(h.sum) }
+func (h *wHash) BlockSize() int               { return 1 }
+
+func harnessC13start() {
+	var o wOpts
+	o.allowed = 1
+	o.cmd = vChoice(2) == 1
+	d := vNondetBytes("d", 2)
+	c := vNondetBytes("c", 3)
+	w := wSetup(o)
+	w.c.config.SecureConfig = &SecureConfig{Checksum: c, Hash: &wHash{sum: d}}
+	_, err := w.c.Start()
+	equal := len(c) == len(d)
+	if equal {
+		for i := 0; i < len(c); i++ {
+			if c[i] != d[i] {
+				equal = false
+			}
+		}
+	}
+	launched := w.p.started > 0
+	if o.cmd {
+		if equal && len(c) > 0 {
+			vCover("launched")
+			vAssert(launched && err == nil, "C13: with a matching checksum the binary is executed")
+		} else {
+			vCover("refused")
+			vAssert(!launched, "C13: with any other checksum no process is launched")
+			vAssert(err != nil, "C13: with any other checksum Start returns an error")
+			if len(c) > 0 {
+				vAssert(errors.Is(err, ErrChecksumsDoNotMatch), "C13: a mismatch is reported with ErrChecksumsDoNotMatch")
+			}
+		}
+	} else {
+		// a custom runner has no binary path to verify: the check cannot succeed, so nothing may be launched
+		vCover("runnerfunc-refused")
+		vAssert(!launched && err != nil, "C13: a SecureConfig that cannot be verified (custom runner, no binary path) launches nothing")
+	}
+	w.c.Kill()
+	vDone()
+}
+
+// ---------------------------------------------------------------------------------------------- C05: Kill after a failed start
+func harnessC05killAfter() {
+	var o wOpts
+	o.allowed = vChoice(2) // default (net/rpc only) or both
+	o.cmd = vChoice(2) == 1
+	o.oldLine = 1 + vChoice(5) // 1..4 scripted lines; 5: garbage
+	o.mux = o.oldLine == 1     // a six-field gRPC line with multiplexing requested: refused
+	w := wSetup(o)
+	if o.oldLine == 5 {
+		w.p.main = func() { mPrintf("%s\n", "this is not a handshake"); <-wNever }
+	}
+	dirsBefore := len(wFiles)
+	_, err := w.c.Start()
+	if err == nil {
+		vCover("start-succeeded")
+		w.c.Kill()
+		vDone()
+	}
+	vCover("start-failed")
+	vAssert(w.p.isDead, "C05: a failed start has terminated the launched process")
+	if vChoice(2) == 1 {
+		vSleepUntil(vNow() + 3*sec) // the exit has been recorded by the client's wait goroutine
+		vCover("kill-later")
+	}
+	r := wTimed(func() error { w.c.Kill(); return nil })
+	vAssert(!r.panicked && r.took <= sec, "C05: a later Kill returns promptly")
+	vAssert(len(wFiles) <= dirsBefore, "C05: Kill removes the temporary socket directory created for a custom runner")
+	left := ""
+	for f := range wFiles {
+		left += " " + f
+	}
+	vAssert(left == "", "C05: nothing created for the failed start is left behind")
 	vDone()
 }
